@@ -289,12 +289,9 @@ func (p *TracerProvider) Shutdown(ctx context.Context) error {
 
 	var retErr error
 	for _, sps := range p.getSpanProcessors() {
-		select {
-		case <-ctx.Done():
-			return ctx.Err()
-		default:
-		}
-
+		// Do not return early when ctx is already done: the provider is
+		// marked as shut down, so no later call would ever shut the remaining
+		// processors down. Each processor honors ctx itself.
 		var err error
 		sps.state.Do(func() {
 			err = sps.sp.Shutdown(ctx)
